@@ -26,16 +26,18 @@ Theorem C11_footer_refs_resolve : forall k kd i, Inv k -> In (kd, i) (frefs k) -
 Proof. exact footer_refs_resolve. Qed.
 Print Assumptions C11_footer_refs_resolve.
 
-(* the call installs the reference of its kind and the part holds the payload of this call *)
+(* the call installs the reference of its kind; the reference resolves to a part that holds the payload of this call
+   (the part has the library's name for the kind, or - when an opened document uses a part of that name for another
+   kind - the first free numbered name) *)
 Theorem C11_header_latest : forall k kd payload k', Inv k -> step k (AddHF false kd payload) = Some k' ->
-  exists i, In (kd, i) (hrefs k') /\ In (mkRel i KHeader (TPart (PHeader kd))) (drels k')
-            /\ get_part (PHeader kd) (parts k') = Some payload.
+  exists i p, In (kd, i) (hrefs k') /\ In (mkRel i KHeader (TPart p)) (drels k')
+            /\ get_part p (parts k') = Some payload.
 Proof. exact header_latest. Qed.
 Print Assumptions C11_header_latest.
 
 Theorem C11_footer_latest : forall k kd payload k', Inv k -> step k (AddHF true kd payload) = Some k' ->
-  exists i, In (kd, i) (frefs k') /\ In (mkRel i KFooter (TPart (PFooter kd))) (drels k')
-            /\ get_part (PFooter kd) (parts k') = Some payload.
+  exists i p, In (kd, i) (frefs k') /\ In (mkRel i KFooter (TPart p)) (drels k')
+            /\ get_part p (parts k') = Some payload.
 Proof. exact footer_latest. Qed.
 Print Assumptions C11_footer_latest.
 
@@ -43,9 +45,29 @@ Print Assumptions C11_footer_latest.
 Theorem C11_header_payload_persists : forall k kd payload k1 ops k2,
   step k (AddHF false kd payload) = Some k1 ->
   (forall o, In o ops -> forall p, o <> AddHF false kd p) ->
-  run k1 ops = Some k2 -> get_part (PHeader kd) (parts k2) = Some payload.
+  run k1 ops = Some k2 -> get_part (hf_part false kd k) (parts k2) = Some payload.
 Proof. exact header_payload_persists. Qed.
 Print Assumptions C11_header_payload_persists.
+
+(* a call for one kind leaves the definitions of the other kinds alone: the part a reference of another kind resolves
+   to keeps its payload - also when the opened document calls that part by the name the library uses for the kind
+   being set (Word numbers header parts as it likes: header1.xml may be the first-page header), or uses one part for
+   two kinds (repair b901942 of the tree; the part name is chosen by hf_part) *)
+Theorem C11_header_other_kinds_kept : forall k kd payload k' kd' j q,
+  Inv k -> step k (AddHF false kd payload) = Some k' ->
+  kd' <> kd -> In (kd', j) (hrefs k) -> In (mkRel j KHeader (TPart q)) (drels k) ->
+  get_part q (parts k') = get_part q (parts k).
+Proof. exact header_other_kinds_kept. Qed.
+Print Assumptions C11_header_other_kinds_kept.
+
+(* the repaired case: the opened package uses header1.xml for its first-page header; a default header is added *)
+Example C11_example_name_taken :
+  let k := mkPkg [mkRel (RId 7) KHeader (TPart (PHeader HDefault))] None [(PHeader HDefault, 5%N)] [] [PHeader HDefault] 0%Z
+                 [(HFirst, RId 7)] [] [] [] in
+  exists k', step k (AddHF false HDefault 9%N) = Some k'
+  /\ get_part (PHeader HDefault) (parts k') = Some 5%N /\ get_part (PHeaderN 2) (parts k') = Some 9%N
+  /\ hrefs k' = [(HFirst, RId 7); (HDefault, RId 3)].
+Proof. eexists. vm_compute. repeat split; reflexivity. Qed.
 
 Example C11_example : exists k', run new_pkg [AddHF false HDefault 1%N; AddHF false HDefault 2%N; SaveReopen; AddHF true HEven 3%N] = Some k'
   /\ hrefs k' = [(HDefault, RId 3)] /\ frefs k' = [(HEven, RId 4)] /\ get_part (PHeader HDefault) (parts k') = Some 2%N.
